@@ -2,15 +2,19 @@ PROP = dict(
     model_args=[],
     cases_per_shard=20,
     trivial=lambda inp, out: False,
-    rule='(position, move) pairs x every entry of Symmetries(p): positions from playouts, axis games (symmetric for many plies), boards that '
-         'fit the default reserves, boards mirror-symmetric from above with different captives; moves = sampled AllMoves moves + illegal but '
-         'transformable moves (occupied squares, off-board origins, bad slides); sizes 3..8. Per image: which of the eight maps it is paired with, '
-         'the image position, TransformMove of the move, the result of applying it. distinct = distinct (position, move)',
+    rule='(position, move) pairs x every entry of Symmetries(p): positions from playouts, axis games (symmetric for many plies), constructed boards '
+         '(winding roads, many groups, tall stacks), boards mirror-symmetric from above with different captives, full boards with TIED flat counts '
+         'and boards one placement away from a tie - under the DEFAULT configuration and under CUSTOM ones (about half of the cases: reduced piece sets '
+         'down to 2 stones, enlarged ones, extra capstones on small boards, fitted exact counts = an exhausted reserve, BlackWinsTies in about a '
+         'quarter); moves = sampled AllMoves moves + illegal but transformable moves (occupied squares, off-board origins, bad slides); sizes 3..8. '
+         'Per image: which of the eight maps it is paired with, the image position (squares, reserves, ply), its tie-break flag, its WinDetails, '
+         'TransformMove of the move, the result of applying it with the WinDetails of the successor. The model is Symmetries under the '
+         "position's own configuration (input carries Config().Pieces/Capstones). distinct = distinct (position, move)",
     assumptions=['moves are transformable: valid type code and, for slides, at least one drop (TransformMove panics otherwise; outside the claim)',
                  'no two distinct images of the positions met share a 64-bit hash (Symmetries de-duplicates by hash)'],
 )
 MANIFEST = dict(
-    text="Coq (Properties/C14.v, 34 obligations, all closed under the global context): on the rules specification Rules.v, for each of the eight symmetries k "
+    text="Coq (Properties/C14.v, 61 obligations, all closed under the global context): on the rules specification Rules.v, for each of the eight symmetries k "
          "and EVERY raw move value (illegal, off-board, bad type code included) rules_move (img k b) (tm k m) = option_map (img k) (rules_move b m) "
          "(rules_equivariant); roads, flat counts, fullness, reserves, side to move and hence the outcome are invariant; the images compose like "
          "the group table and k / inv k undo each other; the code-shaped TransformMove (int8 flips, direction re-derived from the end point) "
@@ -25,10 +29,23 @@ MANIFEST = dict(
          "(image_image_inv). symmetries_firsts: Symmetries(p) is exactly the list of the eight rebuilt images with every entry dropped whose "
          "Hash() occurred before. symmetries_exact: under no_collision on the eight images every entry is (image k, k) with k the first index "
          "producing that image, every image is in the list, and no two entries show the same board or have the same Hash(). "
-         "Execution: model of Symmetries / TransformMove composed with the proved move model is compared with the implementation on every image of "
-         "every generated (position, move); an independent Go oracle with its own eight coordinate maps checks commutation of move application, "
-         "invariance of legality / game over / winner / flat counts, and that Symmetries lists each distinct image exactly once paired with the "
-         "transform producing it.",
+         "UNDER THE POSITION'S OWN CONFIGURATION (TpsCfg.v, SymmetryCfg.v, ImportCfg1-5.v; C14_cfg_*): symmetry.Symmetries passes p.Config() to "
+         "FromSquares, so custom Pieces / Capstones / BlackWinsTies are carried over. from_squares_cfg models FromSquares under an arbitrary "
+         "Config (tak.New's defaulting of a zero count, byte reserves), image_cfg / symmetries_cfg the image and the list under p's configuration; "
+         "the older models are proved to be their default-configuration instances. For ANY piece counts and flag: FromSquares of a fitting board "
+         "satisfies pos_ok, has the flag, shows the board, has reserves = configuration - pieces on the board (from_squares_cfg_wf); the image "
+         "satisfies pos_ok, has p's flag and matching reserves, and - when p's reserves are the configuration's counts minus the pieces on its board "
+         "(reserves_match_cfg: established by tak.New(cfg) and FromSquares(cfg), preserved by every move and every image, implied by C06's game "
+         "invariant cinv) - abs (image) = img k (abs p) with NO hypothesis on the flag; Move (image p) (TransformMove m) = image (Move p m) field "
+         "for field; GameOver / WinDetails AND the tie-break flag agree (a tied flat count is Black's win under BlackWinsTies in every image: "
+         "C14_cfg_nonvacuous_tie, where the default-configuration image reports a draw); image of image by the inverse is p; symmetries_exact "
+         "(each distinct image exactly once, paired with the first transform producing it, each entry with p's flag and matching reserves); the "
+         "transforms listed do not depend on the configuration. "
+         "Execution: the model of Symmetries UNDER THE POSITION'S CONFIGURATION / TransformMove composed with the proved move model and the GameOver "
+         "model is compared with the implementation on every image of every generated (position, move), default and custom configurations alike "
+         "(squares, reserves, tie-break flag, WinDetails of image and successor); an independent Go oracle with its own eight coordinate maps checks "
+         "commutation of move application, invariance of legality / game over / winner / flat counts, that every image has the position's "
+         "configuration, and that Symmetries lists each distinct image exactly once paired with the transform producing it.",
     ref='5.14', technique='Coq proofs (rules_equivariant, road/outcome invariance, TransformMove = tm, Move equivariance via C01) + '
                           'model/implementation differential + independent symmetry oracle',
-    note="Trusted: Coq kernel, extraction, transcription of symmetry/canonical.go. The image theorems need, beyond pos_ok, that the reserves of p are the default counts minus the pieces on its board and that its tie-break flag is the default: the MODEL of Symmetries rebuilds through FromSquares on tak.New with the default configuration (the real code passes p.Config(), so custom counts / BlackWinsTies are carried over there; that configuration is covered by execution only). Both hypotheses are proved to hold again for images and successors. Pass is excluded as in C01; moves are transformable and successors within the 64 limit (fits64). no_collision is a hypothesis of symmetries_exact (B) only.")
+    note="Trusted: Coq kernel, extraction, transcription of symmetry/canonical.go. The image theorems in their final form (C14_cfg_*) model what the code does - FromSquares under p.Config() - and need, beyond pos_ok, only that the reserves of p are the configuration's counts minus the pieces on its board (byte arithmetic); nothing about the tie-break flag. Config().Pieces / Capstones are parameters of the model (the position record has no such fields; the driver reads them from Position.Config()); Go ints, modelled as N (negative counts not modelled). The gameover theorem keeps C02's domain: the byte sums stones+capstones of a player below 256. The older default-configuration theorems (C14_image_abs etc.: hypotheses reserves_match_board, black_wins_ties = false) are kept as instances. symmetry.Canonical takes a size and always starts from the zero configuration: C15 has no configuration to carry (SymmetryCfg.new_pos_zero). Pass is excluded as in C01; moves are transformable and successors within the 64 limit (fits64). no_collision is a hypothesis of symmetries_exact (B) only.")
